@@ -126,7 +126,15 @@ func GenPkg(r *rand.Rand, o PkgOpts) *Pkg {
 			hasSource = true
 		}
 		if kind == "index" {
-			addSource()
+			// the usual shape in real packages: an index module over a map's output; otherwise over the block itself
+			if len(maps) > 0 && r.Intn(2) == 0 {
+				m := pick(r, maps)
+				inputs = append(inputs, &pbsubstreams.Module_Input{Input: &pbsubstreams.Module_Input_Map_{Map: &pbsubstreams.Module_Input_Map{ModuleName: m}}})
+				specs = append(specs, native.InSpec{Kind: "map", Name: m})
+				depInit = append(depInit, p.Init[m])
+			} else {
+				addSource()
+			}
 		} else {
 			// params first
 			paramsOnly := false
@@ -223,7 +231,7 @@ func GenPkg(r *rand.Rand, o PkgOpts) *Pkg {
 				init = initChoices(max)
 			}
 		}
-		if kind == "index" {
+		if kind == "index" && hasSource {
 			init = 0
 		}
 		mod := &pbsubstreams.Module{Name: name, BinaryIndex: 0, BinaryEntrypoint: name, Inputs: inputs, InitialBlock: init}
@@ -256,7 +264,10 @@ func GenPkg(r *rand.Rand, o PkgOpts) *Pkg {
 			fp = o.FilterProb
 		}
 		if kind != "index" && !o.NoFilters && len(indexes) > 0 && r.Float64() < fp {
-			mod.BlockFilter = &pbsubstreams.Module_BlockFilter{Module: pick(r, indexes), Query: &pbsubstreams.Module_BlockFilter_QueryString{QueryString: pick(r, filterQueries)}}
+			// a filtering index module must not start after the module it filters (validation rule)
+			if idx := pick(r, indexes); p.Init[idx] <= init {
+				mod.BlockFilter = &pbsubstreams.Module_BlockFilter{Module: idx, Query: &pbsubstreams.Module_BlockFilter_QueryString{QueryString: pick(r, filterQueries)}}
+			}
 		}
 		prog.Inputs = specs
 		p.Progs[name] = prog
